@@ -37,4 +37,58 @@ PLAN = {
         "trusted": COMMON_TRUSTED + ["model R for times (comparisons only)"],
         "explanation": "contracts + loop invariants on heap.c (C front end) and on both Python schedulers",
     },
+    "C08": {
+        "sidecars": [],
+        "extra": ["contracts.wiring:wiring_units", "monitors.provider:bounded"],
+        "level": "other",
+        "trusted": COMMON_TRUSTED + ["run-time monitors are a bounded stand-in: they cover the shipped configurations for the stated number of events only"],
+        "explanation": "wiring lemma per shipped .ini (inductiveness VC from the parsed lists and AST-derived frames) + bounded run-time monitor",
+    },
+    "C09": {
+        "sidecars": [],
+        "extra": ["contracts.wiring:wiring_units", "monitors.provider:bounded"],
+        "level": "other",
+        "trusted": COMMON_TRUSTED + ["run-time monitors are a bounded stand-in: they cover the shipped configurations for the stated number of events only"],
+        "explanation": "wiring lemma per shipped .ini + bounded run-time monitor of pending == fresh",
+    },
+    "C07": {
+        "sidecars": [],
+        "extra": ["monitors.provider:bounded"],
+        "level": "other",
+        "bounded_only": True,
+        "trusted": COMMON_TRUSTED + ["run-time monitors are a bounded stand-in: they cover the shipped configurations for the stated number of events only"],
+        "explanation": "bounded run-time monitor of continuity / time order / one chain / box / identities at every commit",
+    },
+    "C11": {
+        "sidecars": [],
+        "extra": ["monitors.provider:bounded"],
+        "level": "other",
+        "bounded_only": True,
+        "trusted": COMMON_TRUSTED + ["run-time monitors are a bounded stand-in: they cover the shipped configurations for the stated number of events only"],
+        "explanation": "bounded run-time monitor comparing the occupancy bookkeeping with the positions after every activator update",
+    },
+    "C12": {
+        "sidecars": [],
+        "extra": ["monitors.provider:bounded"],
+        "level": "other",
+        "bounded_only": True,
+        "trusted": COMMON_TRUSTED + ["run-time monitors are a bounded stand-in: they cover the shipped configurations for the stated number of events only"],
+        "explanation": "bounded run-time monitor of composite velocity and barycentre at every commit",
+    },
+    "C13": {
+        "sidecars": [],
+        "extra": ["monitors.provider:bounded"],
+        "level": "other",
+        "bounded_only": True,
+        "trusted": COMMON_TRUSTED + ["run-time monitors are a bounded stand-in: they cover the shipped configurations for the stated number of events only"],
+        "explanation": "bounded run-time monitor: the global state does not change between commits",
+    },
+    "C17": {
+        "sidecars": [],
+        "extra": ["monitors.provider:bounded"],
+        "level": "other",
+        "bounded_only": True,
+        "trusted": COMMON_TRUSTED + ["run-time monitors are a bounded stand-in: they cover the shipped configurations for the stated number of events only"],
+        "explanation": "bounded run-time monitor of sample times and time-sliced sample states",
+    },
 }
